@@ -11,8 +11,9 @@ import (
 
 func init() {
 	core.Register(&core.Prop{
-		ID:    "C02",
-		Level: "exploration",
+		ID:          "C02",
+		Level:       "exploration",
+		CaseTimeout: 45e9, // a case of this check takes milliseconds; one that does not end is cut after 45 s
 		Rule: "conflict-dense seeded histories (2 keys / short sequences, 2-4 replicas, partial deliveries) whose final state on every replica and on a log replay (the server's own copy) is compared with a reference computed from the emitted operations only (int32 sum, LWW by (lamport,cuid), RGA tree newest-first, delete dominates update); a third of the document histories first concentrate multi-value updates / deletes / inserts from all replicas on one array of primitives (overlapping update ranges); " +
 			"non-trivial = the operation set contains a conflict whose winner is not the last one in arrival (log) order, or concurrent same-anchor inserts, or update/delete and update/update conflicts on one element (counter: >=2 contributing clients); distinct = hash of the step script",
 		Assumptions: []string{
